@@ -17,7 +17,7 @@ type PoolCfg struct {
 	Fanout    bool // add > 50 static siblings under one node
 	Deep      bool // add a chain of nested prefixes deeper than 25 tree levels
 	HostHeavy bool // two fresh patterns in three carry a hostname, and mutations keep the host more often
-	Odd       bool // static segments also use bytes that sort before '*', between '*' and '{', and after '{'
+	Odd       bool // static segments also use bytes that sort before '*', between '*' and '{', and after '{'; wildcard names may carry '.', '-' or extend one another
 }
 
 var statics = []string{"a", "b", "ab", "ba", "c"}
@@ -39,8 +39,14 @@ func genSegment(s sim.Source, depth int, cfg PoolCfg, prevCatch bool) (seg strin
 	}
 	k := s.Intn("segkind", 12)
 	name := "p" + string(rune('0'+depth))
-	if s.Intn("altname", 24) == 23 {
+	switch s.Intn("altname", 24) {
+	case 23:
 		name = "q" + string(rune('0'+depth))
+	case 22, 21:
+		// names that agree with each other (and with nothing else) up to and including a dot, or extend the usual name
+		if cfg.Odd {
+			name += sim.Pick(s, "namesuffix", []string{".a", ".b", "x", "-y"})
+		}
 	}
 	switch {
 	case k < w: // full-segment param
